@@ -1,6 +1,6 @@
 SPECIFICATION Spec
 CONSTANTS Consts = {"a","b","c"}
- MaxOps = 3
+ MaxOps = 2
 INVARIANT ClosureIsCongruence
 INVARIANT ClosureIsLeast
 INVARIANT FastAgrees
